@@ -29,11 +29,15 @@ typedef int BLAS_INT;
 
 #define DLANGE(X1,X2,X3,X4,X5,X6)       LAPACK(dlange,DLANGE)(LAPACK_COL_MAJOR,X1,X2,X3,X4,X5);UNUSED(X6)
 
-#define DSPTRF(X1,X2,X3,X4,X5)          LAPACK(dsptrf,DSPTRF)(LAPACK_COL_MAJOR,X1,X2,X3,X4)
-#define DSPTRS(X1,X2,X3,X4,X5,X6,X7,X8) LAPACK(dsptrs,DSPTRS)(LAPACK_COL_MAJOR,X1,X2,X3,X4,X5,X6,X7)
-#define DSPTRI(X1,X2,X3,X4,X5,X6)       LAPACK(dsptri,DSPTRI)(LAPACK_COL_MAJOR,X1,X2,X3,X4)
-#define DPPTRF(X1,X2,X3,X4)             LAPACK(dpptrf,DPPTRF)(LAPACK_COL_MAJOR,X1,X2,X3)
-#define DPPTRI(X1,X2,X3,X4)             LAPACK(dpptri,DPPTRI)(LAPACK_COL_MAJOR,X1,X2,X3)
+//  LAPACKE returns the info code: keep the first non-zero one in the caller's Info variable (initialised to 0).
+
+#define OM_LAPACKE_INFO(INFO,CALL) do { const int om_lapacke_info = CALL; if (INFO==0) INFO = om_lapacke_info; } while (0)
+
+#define DSPTRF(X1,X2,X3,X4,X5)          OM_LAPACKE_INFO(X5,LAPACK(dsptrf,DSPTRF)(LAPACK_COL_MAJOR,X1,X2,X3,X4))
+#define DSPTRS(X1,X2,X3,X4,X5,X6,X7,X8) OM_LAPACKE_INFO(X8,LAPACK(dsptrs,DSPTRS)(LAPACK_COL_MAJOR,X1,X2,X3,X4,X5,X6,X7))
+#define DSPTRI(X1,X2,X3,X4,X5,X6)       OM_LAPACKE_INFO(X6,LAPACK(dsptri,DSPTRI)(LAPACK_COL_MAJOR,X1,X2,X3,X4))
+#define DPPTRF(X1,X2,X3,X4)             OM_LAPACKE_INFO(X4,LAPACK(dpptrf,DPPTRF)(LAPACK_COL_MAJOR,X1,X2,X3))
+#define DPPTRI(X1,X2,X3,X4)             OM_LAPACKE_INFO(X4,LAPACK(dpptri,DPPTRI)(LAPACK_COL_MAJOR,X1,X2,X3))
 #define DGETRF(X1,X2,X3,X4,X5)          LAPACK(dgetrf,DGETRF)(LAPACK_COL_MAJOR,X1,X2,X3,X4,X5)
 #define DGETRI(X1,X2,X3,X4)             LAPACK(dgetri,DGETRI)(LAPACK_COL_MAJOR,X1,X2,X3,X4)
 
